@@ -5,6 +5,8 @@ import (
 	"errors"
 	"sync"
 	"sync/atomic"
+
+	"github.com/glebziz/fs_db/internal/verifhook"
 )
 
 type readWriter struct {
@@ -28,20 +30,25 @@ func NewReadWriter() *readWriter {
 }
 
 func (rw *readWriter) Read(p []byte) (n int, err error) {
+	verifhook.At("rw.read.enter")
 	rw.m.Lock()
 	defer rw.m.Unlock()
 
 	if !rw.closed.Load() && rw.buf.Len() == 0 {
+		verifhook.At("rw.read.beforeWait")
 		rw.cv.Wait()
+		verifhook.At("rw.read.afterWake")
 	}
 
 	return rw.buf.Read(p)
 }
 
 func (rw *readWriter) Write(p []byte) (n int, err error) {
+	verifhook.At("rw.write.enter")
 	rw.m.Lock()
 	defer func() {
 		rw.m.Unlock()
+		verifhook.At("rw.write.beforeSignal")
 		rw.cv.Signal()
 	}()
 
@@ -54,8 +61,11 @@ func (rw *readWriter) Write(p []byte) (n int, err error) {
 }
 
 func (rw *readWriter) Close() error {
+	verifhook.At("rw.close.enter")
 	rw.closed.Store(true)
+	verifhook.At("rw.close.afterStore")
 	rw.cv.Broadcast()
+	verifhook.At("rw.close.beforeWait")
 	rw.Wait()
 
 	return rw.err
